@@ -63,6 +63,8 @@ def run(ck: Check, repo: Repo) -> None:
         _multi_continuous(ck, repo, repo.fn(modname, q))
     _policy_gradient(ck, repo)
     _dqn_wrapper(ck, repo)
+    from ._c14_r5 import run_r5
+    run_r5(ck, repo)
 
 
 # ------------------------------------------------------------------------------------------------ choices of a value, in either spelling
